@@ -3,6 +3,9 @@
 import json
 from pathlib import Path
 rows = []
+# first-run status of the round-1 seeds (recorded in DESIGN 7.5 at the time; the 8th exit-2 case was not noted)
+FIRST = {k: "missed" for k in ("C01-3", "C02-2", "C02-3", "C09-1", "C09-2", "C09-3")}
+FIRST.update({k: "exit 2" for k in ("C01-1", "C05-1", "C10-3", "C14-2", "C14-3", "C17-1", "C03-2")})
 for d in sorted(Path("/verif/seeded").iterdir()):
     m = json.loads((d / "meta.json").read_text())
     cr = m.get("check_result", {})
@@ -10,6 +13,7 @@ for d in sorted(Path("/verif/seeded").iterdir()):
     needs = " ".join(str(m.get("needs", "")).split())
     first = cr.get("status_at_import") or cr.get("status") or ""
     first = {"CAUGHT": "caught", "MISSED": "missed", "ANALYSIS-ERROR": "exit 2"}.get(first, first)
+    first = FIRST.get(d.name, first)
     now = ", ".join(cr.get("rules_fired") or []) or {"MISSED": "**missed**", "ANALYSIS-ERROR": "exit 2"}.get(cr.get("status"), "")
     rows.append(f"| {d.name} | {summ[:150]}{'…' if len(summ) > 150 else ''} | {needs[:90]}{'…' if len(needs) > 90 else ''} | {first} | {now} |")
 print("| seed | change | needs to manifest | first run | caught by (now) |\n|---|---|---|---|---|")
